@@ -18,6 +18,8 @@ Password(c, a, u, sc, au) == [op |-> "password", client |-> c, auth |-> a, user 
 DevStart(c, a, sc, gr, au) == [op |-> "devstart", client |-> c, auth |-> a, scopes |-> sc, grant |-> gr, aud |-> au]
 DevDecide(d, dec) == [op |-> "devdecide", dev |-> d, dec |-> dec]
 DevPoll(c, a, d) == [op |-> "devpoll", client |-> c, auth |-> a, dev |-> d]
+(* a device code rebuilt from the signature the store holds: nothing (sig_only), or something that is not base64 (sig_junk), where the key belongs *)
+DevPollForged(c, a, d, how) == [op |-> "devpoll", client |-> c, auth |-> a, dev |-> d, forge |-> how]
 Push(c, a, rt, sc, au, rd, f, u) ==
   [op |-> "push", client |-> c, auth |-> a, rtype |-> rt, scopes |-> sc, aud |-> au, redir |-> rd, field |-> f, par |-> u]
 UsePar(c, kind, u, f) == [op |-> "usepar", client |-> c, kind |-> kind, par |-> u, field |-> f]
